@@ -22,6 +22,8 @@ pub struct Parser<'a> {
     depth: usize,
     /// Height of the tree built so far inside the current recursive step (see `link`)
     height: usize,
+    /// Offsets of `(` at which reading the parenthesis as arrow parameters has already failed
+    not_arrow_at: FxHashSet<usize>,
     /// Address of a local of the outermost recursive step (0 until then)
     stack_base: usize,
 }
@@ -46,6 +48,7 @@ impl<'a> Parser<'a> {
             no_in: false,
             depth: 0,
             height: 0,
+            not_arrow_at: FxHashSet::default(),
             stack_base: 0,
         }
     }
@@ -3140,7 +3143,11 @@ impl<'a> Parser<'a> {
         // ahead to the matching `)` shows that neither `=>` nor a return type follows.
         // Without this, every level of `(a = (a = (...)))` is parsed twice (once as
         // parameters with a default, once as an expression): exponential in the depth.
-        if self.parenthesis_cannot_start_arrow() {
+        // A parenthesis that already failed as parameters is not tried again when an
+        // enclosing speculation rolls back and the text is parsed a second time: else
+        // `x ? (a = x ? (a = ...) : 0) : 0`, where `:` leaves the look-ahead undecided,
+        // doubles the work with every level.
+        if self.not_arrow_at.contains(&start.start) || self.parenthesis_cannot_start_arrow() {
             self.lexer.restore(lexer_checkpoint);
             self.current = saved_current;
             self.previous = saved_previous;
@@ -3196,11 +3203,13 @@ impl<'a> Parser<'a> {
             }
 
             // No arrow - might be parenthesized expression, rollback and re-parse
+            self.not_arrow_at.insert(start.start);
             self.lexer.restore(lexer_checkpoint);
             self.current = saved_current;
             self.previous = saved_previous;
         } else {
             // Failed to parse as params, rollback
+            self.not_arrow_at.insert(start.start);
             self.lexer.restore(lexer_checkpoint);
             self.current = saved_current;
             self.previous = saved_previous;
